@@ -72,7 +72,108 @@ def gen_value(t, tag):
     return array([[r("a"), r("b"), 0.5]])  # 1 x 3 Jacobian-like
 
 
+def solved_problem_roundtrip(ctx):
+    """A problem solved by a (sequential) DOE, written to HDF5 and read back: description, functions, solution."""
+    import numpy as np
+
+    from gemseo.algos.design_space import DesignSpace
+    from gemseo.algos.doe.factory import DOELibraryFactory
+    from gemseo.algos.optimization_problem import OptimizationProblem
+    from gemseo.core.mdo_functions.mdo_function import MDOFunction
+
+    t = ctx.tape
+    maximize = t.flag(0.4, "maximize")
+    dim = t.randint(1, 3, "dim")
+    n_pts = t.randint(1, 5, "n_points")
+    with_eq = t.flag(0.5, "equality")
+    with_obs = t.flag(0.5, "observable")
+    eval_jac = t.flag(0.5, "eval_jac")
+    node = t.pick(["", "p/q"], "node")
+    # points on a coarse grid including the origin, so that exact zeros (f_opt = 0.0, a constraint value 0.0,
+    # optimum at the first point) occur
+    pts = [[t.randint(-2, 2, f"p[{i}][{j}]") / 2.0 for j in range(dim)] for i in range(n_pts)]
+    sgn = -1.0 if maximize else 1.0
+    ds = DesignSpace()
+    ds.add_variable("x", size=dim, lower_bound=-2.0, upper_bound=2.0, value=array([0.0] * dim))
+    p = OptimizationProblem(ds)
+    p.objective = MDOFunction(lambda x: sgn * float(x @ x), "f", jac=lambda x: sgn * 2 * x, expr="x.x", input_names=["x"])
+    p.add_constraint(MDOFunction(lambda x: array([x[0] - 1.0, x.sum()]), "g", jac=lambda x: np.vstack([np.eye(dim)[0], np.ones(dim)])), constraint_type="ineq")
+    if with_eq:
+        p.add_constraint(MDOFunction(lambda x: array([x[0] - x[-1]]), "h", jac=lambda x: (np.eye(dim)[0] - np.eye(dim)[-1])[None, :]), constraint_type="eq")
+    if with_obs:
+        p.add_observable(MDOFunction(lambda x: array([3.0 * x[0]]), "o", jac=lambda x: 3.0 * np.eye(dim)[:1]))
+    if maximize:
+        p.minimize_objective = False
+    DOELibraryFactory().execute(p, algo_name="CustomDOE", samples=array(pts), eval_jac=eval_jac)
+    path = str(ctx.scratch / "problem.h5")
+    cfg = {"family": "solved problem round trip", "maximize": maximize, "dim": dim, "points": pts, "equality": with_eq, "observable": with_obs, "eval_jac": eval_jac, "node": node}
+    ctx.event("cfg", canon(cfg))
+    sig = "problem.to_hdf/from_hdf content"
+    try:
+        p.to_hdf(path, hdf_node_path=node)
+        q = OptimizationProblem.from_hdf(path, hdf_node_path=node)
+    except Exception as exc:  # noqa: BLE001
+        ctx.violate("C11.problem_roundtrip", sig + f" raised={type(exc).__name__}", f"round trip raised {exc!r}; cfg={cfg}")
+
+    def same(a, b):
+        # a mapping holding only None carries no information (e.g. constraints_grad without Jacobians)
+        if isinstance(a, dict) and all(v is None for v in a.values()):
+            a = None
+        if isinstance(b, dict) and all(v is None for v in b.values()):
+            b = None
+        if a is None or b is None:
+            return a is None and b is None
+        if isinstance(a, dict):
+            return isinstance(b, dict) and set(a) == set(b) and all(same(a[k], b[k]) for k in a)
+        if isinstance(a, str) or isinstance(b, str):
+            return a == b
+        try:
+            return np.array_equal(np.asarray(a, dtype=float), np.asarray(b, dtype=float))
+        except (TypeError, ValueError):
+            return a == b
+
+    diffs = []
+    if q.minimize_objective != p.minimize_objective:
+        diffs.append(f"minimize_objective {p.minimize_objective} -> {q.minimize_objective}")
+    for attr in ("name", "expr", "f_type", "dim"):
+        if getattr(q.objective, attr) != getattr(p.objective, attr):
+            diffs.append(f"objective.{attr} {getattr(p.objective, attr)!r} -> {getattr(q.objective, attr)!r}")
+    pc = {c.name: (str(c.f_type), c.dim) for c in p.constraints}
+    qc = {c.name: (str(c.f_type), c.dim) for c in q.constraints}
+    if pc != qc:
+        diffs.append(f"constraints {pc} -> {qc}")
+    if sorted(o.name for o in p.observables) != sorted(o.name for o in q.observables):
+        diffs.append("observables differ")
+    if q.design_space != p.design_space:
+        diffs.append("design space differs")
+    if dump(q.database) != dump(p.database):
+        diffs.append("database differs")
+    s0, s1 = p.solution, q.solution
+    if (s0 is None) != (s1 is None):
+        diffs.append(f"solution {s0 is not None} -> {s1 is not None}")
+    elif s0 is not None:
+        for f in ("x_0", "x_opt", "f_opt", "is_feasible", "optimum_index", "n_obj_call", "n_grad_call", "n_constr_call", "status", "message",
+                  "optimizer_name", "objective_name", "constraint_values", "constraints_grad", "x_opt_as_dict", "x_0_as_dict"):
+            if not same(getattr(s0, f), getattr(s1, f)):
+                diffs.append(f"solution.{f} {getattr(s0, f)!r} -> {getattr(s1, f)!r}")
+        if s0.optimum_index == 0:
+            ctx.probe("solution_with_optimum_at_first_point")
+        if s0.f_opt == 0.0:
+            ctx.probe("solution_with_zero_objective")
+    as_dict_only = [d_ for d_ in diffs if d_.startswith(("solution.x_opt_as_dict", "solution.x_0_as_dict"))]
+    if node and as_dict_only:
+        ctx.violate("C11.problem_roundtrip", sig + " nested-node solution dictionaries",
+                    f"problem written to the nested node {node!r}: {as_dict_only}; cfg={cfg}", fatal=False)
+        diffs = [d_ for d_ in diffs if d_ not in as_dict_only]
+    if diffs:
+        ctx.violate("C11.problem_roundtrip", sig, f"fields changed by the round trip: {diffs[:6]}; cfg={cfg}")
+    ctx.case(canon(cfg), nontrivial=n_pts >= 2)
+    ctx.sample = cfg
+
+
 def run(ctx):
+    if ctx.tape.flag(0.12, "solved_problem_roundtrip"):
+        return solved_problem_roundtrip(ctx)
     from gemseo.algos.database import Database
     from gemseo.algos.design_space import DesignSpace
     from gemseo.algos.optimization_problem import OptimizationProblem
